@@ -246,6 +246,9 @@ def build(rng, family):
         # the order of the cards inside a block is free in MCNP
         rng.shuffle(deck.surfs)
         deck.tags.add('cards.unordered')
+    if rng.random() < 0.25:
+        rng.shuffle(deck.cells)
+        deck.tags.add('cells.unordered')
     if mixed:
         deck.tags.add('c01.mixed')
     if has_cellc_in_not(deck):
